@@ -6,6 +6,7 @@ import Bita.Model.Clone
 import Bita.Spec.ArchiveSpec
 import Bita.Proofs.ProtoRoundtrip
 import Bita.Proofs.TryInitLemmas
+import Bita.Proofs.Accepted
 
 namespace Bita.Proofs
 open Bita Bita.Proto Bita.Spec
